@@ -240,6 +240,59 @@ def range_property_fails(name, lam, sh):
     return bool(probe_ranges_one(name, lam, sh))
 
 
+def loglik_compare(ctx, drv, name, lam, sh, x, tag):
+    """one data set: implementation vs model log-likelihoods, and the definition probe when they differ"""
+    k = KINDS[name]
+    nz = make(name, lam, sh)
+    with Quiet():
+        a1 = float(nz.kernel_loglikelihood(x))
+        a2 = float(nz.loglikelihood(x))
+        xv = x[np.isfinite(np.asarray(nz.normalize(x), dtype=float))]
+        zz = np.asarray(nz._normalize(xv), dtype=float)
+        dd = np.asarray(nz._derivative(xv), dtype=float) * np.ones_like(xv)
+    b1 = drv.call("kernel_loglikelihood", ("n", k), lam, sh, x)
+    b2 = drv.call("loglikelihood", ("n", k), lam, sh, x)
+    nn = len(xv)
+    # rtol 1e-9 against the magnitude of the accumulated terms (numpy sums pairwise, the model left to right;
+    # z_i differ by the transcendental kernels): n/2*|ln var| + sum |ln d_i| + n/2*(ln 2 pi + 1), and the
+    # conditioning of ln(var) with respect to ulp errors in z: n/2 * ULPS*eps*max|S_z| * 2*sqrt(n)/std
+    with np.errstate(all="ignore"):
+        var = np.var(zz)
+        Sz = np.max(scale_of(name, "normalize", lam, sh, xv, zz)) if nn else 0.0
+        scale = 0.5 * nn * abs(np.log(var)) + np.sum(np.abs(np.log(np.maximum(1e-16, dd)))) + 0.5 * nn * 2.84 + abs(a1)
+        tol = 1e-9 * scale + 0.5 * nn * ULPS * EPS * Sz * 2 * math.sqrt(nn) / math.sqrt(var)
+    okk = (np.isnan(a1) and np.isnan(b1)) or abs(a1 - b1) <= tol or a1 == b1
+    okl = (np.isnan(a2) and np.isnan(b2)) or abs(a2 - b2) <= tol or a2 == b2
+    with np.errstate(all="ignore"):
+        dmag = "%+d" % int(np.clip(np.round(np.nanmedian(np.log10(np.maximum(dd, 1e-300)))), -25, 25)) if nn else "-"
+    ctx.count((name, lam_class(lam), "loglik", min(nn, 8), tag, dmag), hist=dict(kind=name, fn="loglikelihood", lam_class=lam_class(lam), log10_derivative=dmag))
+    pf = probe_loglik_one(nz, x)
+    if not (okk and okl):
+        ctx.violation("correspondence: %s.loglikelihood" % name,
+                      "model and implementation log-likelihood differ: kernel %r vs %r, full %r vs %r (tol %.3g)%s" % (
+                          a1, b1, a2, b2, tol, "; " + pf if pf else ""),
+                      dict(kind="loglik", normalizer=name, lmbda=C.fhex(lam), shift=C.fhex(sh), data=hexl(x)),
+                      key="corr:%s:loglik" % name, no_input=not pf)
+    elif pf and tag == "extreme":
+        ctx.violation("probe: log-likelihood definition", "%s(lmbda=%r): %s" % (name, lam, pf),
+                      dict(kind="loglik", normalizer=name, lmbda=C.fhex(lam), shift=C.fhex(sh), data=hexl(x)), key="loglik-def:%s" % name)
+
+
+def extreme_lik_data(rng):
+    """data / parameter combinations whose derivative spans 1e-20 ... 1e+20: both ends of the guard max(1e-16, derivative) of the code
+    (the lower clamp 1e-16 is part of the model; there is no upper clamp)"""
+    u = lambda a, b, n=12: 10.0 ** rng.uniform(a, b, n)      # noqa: E731
+    out = [("LogNormal", 1.0, 0.0, u(-19, -17)), ("LogNormal", 1.0, 0.0, u(17, 19)), ("LogNormal", 1.0, 0.0, u(-18, 18, 24)),
+           ("BoxCox", -1.0, 0.0, u(-11, -9)), ("BoxCox", -1.0, 0.0, u(9, 11)), ("BoxCox", 3.0, 0.0, u(8, 10)), ("BoxCox", 3.0, 0.0, u(-10, -8)),
+           ("BoxCox", 0.0, 0.0, u(-19, -17)), ("BoxCoxShift", 3.0, 1.0, u(8, 10)), ("BoxCoxShift", -1.0, 0.5, u(9, 10)),
+           ("Manly", 1.0, 0.0, rng.uniform(38, 46, 12)), ("Manly", 1.0, 0.0, rng.uniform(-46, -38, 12)), ("Manly", -1.0, 0.0, rng.uniform(-46, -38, 12)),
+           ("Manly", 0.5, 0.0, rng.uniform(-90, 90, 24)),
+           ("Modulus", 5.0, 0.0, u(4, 5) * rng.choice([-1, 1], 12)), ("Modulus", -3.0, 0.0, u(4, 5) * rng.choice([-1, 1], 12)),
+           ("YeoJohnson", 5.0, 0.0, u(4, 5)), ("YeoJohnson", 5.0, 0.0, -u(4, 5)), ("YeoJohnson", -3.0, 0.0, -u(4, 5)), ("YeoJohnson", -3.0, 0.0, u(4, 5)),
+           ("YeoJohnson", 4.5, 0.0, u(3, 6, 16) * rng.choice([-1, 1], 16))]
+    return out
+
+
 def corr_loglik(ctx, drv, rng, cfgs):
     """kernel_loglikelihood / loglikelihood incl. NaN and out-of-range entries (which must be ignored)"""
     reps = 6 if ctx.tier == "thorough" else 1
@@ -264,33 +317,9 @@ def corr_loglik(ctx, drv, rng, cfgs):
                 extra += [nlo - 1.0, nlo]
             x = np.concatenate([x, extra])
             x = x[rng.permutation(len(x))]
-            with Quiet():
-                a1 = float(nz.kernel_loglikelihood(x))
-                a2 = float(nz.loglikelihood(x))
-                xv = x[np.isfinite(np.asarray(nz.normalize(x), dtype=float))]
-                zz = np.asarray(nz._normalize(xv), dtype=float)
-                dd = np.asarray(nz._derivative(xv), dtype=float) * np.ones_like(xv)
-            b1 = drv.call("kernel_loglikelihood", ("n", k), lam, sh, x)
-            b2 = drv.call("loglikelihood", ("n", k), lam, sh, x)
-            nn = len(xv)
-            # rtol 1e-9 against the magnitude of the accumulated terms (numpy sums pairwise, the model left to right;
-            # z_i differ by the transcendental kernels): n/2*|ln var| + sum |ln d_i| + n/2*(ln 2 pi + 1), and the
-            # conditioning of ln(var) with respect to ulp errors in z: n/2 * ULPS*eps*max|S_z| * 2*sqrt(n)/std
-            with np.errstate(all="ignore"):
-                var = np.var(zz)
-                Sz = np.max(scale_of(name, "normalize", lam, sh, xv, zz)) if nn else 0.0
-                scale = 0.5 * nn * abs(np.log(var)) + np.sum(np.abs(np.log(np.maximum(1e-16, dd)))) + 0.5 * nn * 2.84 + abs(a1)
-                tol = 1e-9 * scale + 0.5 * nn * ULPS * EPS * Sz * 2 * math.sqrt(nn) / math.sqrt(var)
-            okk = (np.isnan(a1) and np.isnan(b1)) or abs(a1 - b1) <= tol or a1 == b1
-            okl = (np.isnan(a2) and np.isnan(b2)) or abs(a2 - b2) <= tol or a2 == b2
-            ctx.count((name, lam_class(lam), "loglik", min(nn, 8)), hist=dict(kind=name, fn="loglikelihood", lam_class=lam_class(lam)))
-            if not (okk and okl):
-                pf = probe_loglik_one(nz, x)
-                ctx.violation("correspondence: %s.loglikelihood" % name,
-                              "model and implementation log-likelihood differ: kernel %r vs %r, full %r vs %r (tol %.3g)%s" % (
-                                  a1, b1, a2, b2, tol, "; " + pf if pf else ""),
-                              dict(kind="loglik", normalizer=name, lmbda=C.fhex(lam), shift=C.fhex(sh), data=hexl(x)),
-                              key="corr:%s:loglik" % name, no_input=not pf)
+            loglik_compare(ctx, drv, name, lam, sh, x, "generated")
+    for name, lam, sh, x in extreme_lik_data(rng):
+        loglik_compare(ctx, drv, name, float(lam), float(sh), np.concatenate([np.asarray(x, dtype=float), [np.nan]]), "extreme")
 
 
 # ------------------------------------------------------------------------------------------- mpmath reference
@@ -698,6 +727,17 @@ def fit_classes():
     return [N.BoxCox, N.YeoJohnson, N.Manly, N.BoxCoxShift, Tri, N.LogNormal]
 
 
+def cond_scale(name, lam, sh, cval, ct, cm, cond):
+    """error scale of normalize(cval - ct) - cm: cancellation scale of the formula, the mean, and the rounding of the
+    detrended datum carried through the derivative"""
+    nz = make(name, lam, sh)
+    with Quiet():
+        f = np.asarray(cval, dtype=float) - ct
+        dz = np.abs(np.asarray(nz.derivative(f), dtype=float))
+        Sn = scale_of(name, "normalize", lam, sh, f, np.asarray(cond, dtype=float) + cm)
+    return np.where(np.isfinite(dz), dz, 0.0) * (np.abs(cval) + np.abs(ct)) + np.where(np.isfinite(Sn), Sn, np.inf) + np.abs(cm) + np.abs(cond)
+
+
 def corr_fit(ctx, drv, rng):
     """fit bookkeeping vs the model's fit_book for recorded real optimiser runs and for arbitrary optimisers, all
     skip subsets; the property part: skipped parameters untouched, free parameters = optimiser result, dict = state"""
@@ -772,6 +812,32 @@ def fit_data(rng, name, lam0, sh0, n):
         zs = zs[(zs > lo + 0.05) & (zs < hi - 0.05)][:n]
         data = np.asarray(gen.denormalize(zs), dtype=float)
     return data[np.isfinite(data)]
+
+
+def probe_fit_scale(ctx, rng):
+    """fit on data of large magnitude against a numerically stable reference of the same Box-Cox profile likelihood
+    (scipy.stats.boxcox_llf): the estimate must maximise it over a lmbda grid whatever the unit of the data"""
+    from scipy import stats
+    N = gn()
+    grid = np.linspace(-4.5, 4.5, 361)
+    for scale in (1.0, 1e3, 1e6, 1e9):
+        for rep in range(2 if ctx.tier == "thorough" else 1):
+            data = np.exp(rng.normal(0.0, 0.5, int(rng.integers(100, 200)))) * scale
+            nz = N.BoxCox()
+            with Quiet():
+                nz.fit(data)
+                lfit = float(nz.lmbda)
+                own = float(nz.kernel_loglikelihood(data))
+                ref_fit = float(stats.boxcox_llf(lfit, data))
+                vals = np.array([float(stats.boxcox_llf(float(g), data)) for g in grid])
+            best = float(np.nanmax(vals))
+            ctx.count(("probe-fit-scale", scale, rep), hist=dict(probe="fit vs stable reference, data scale %g" % scale))
+            if not (ref_fit >= best - 1e-6 * (1 + abs(best))):
+                ctx.violation("probe: fit maximises the log-likelihood (data scale)", "BoxCox().fit(data of magnitude %g) -> lmbda=%r; the profile log-likelihood "
+                              "(stable evaluation) there is %r, at lmbda=%r it is %r; gstools' own kernel_loglikelihood at the fitted lmbda is %r "
+                              "(the variance of the normalized data collapses in double precision for lmbda << 0, Brent's bracket search steps to lmbda = -8.47)" % (
+                                  scale, lfit, ref_fit, float(grid[int(np.nanargmax(vals))]), best, own),
+                              dict(kind="fit", normalizer="BoxCox", data=hexl(data), fitted=C.fhex(lfit)), key="fit:BoxCox:large-scale-data")
 
 
 def probes_fit_skip(ctx, rng):
@@ -950,6 +1016,27 @@ def pipeline_cases(rng, tier):
             trend = [None, tuple(1.0 + j for j in range(dim)), vec, 0.7][int(rng.integers(4))]
             cases.append(dict(obj="SRF", norm=nm, dim=dim, mesh=mesh, mean=mean, trend=trend, value_type="vector",
                               seed=int(rng.integers(1, 10 ** 6))))
+    # point counts 1, 2, dim, dim + 1 (the number of points coinciding with the dimension / the number of vector components) and
+    # structured grids whose axis lengths equal dim or 1: vector and scalar fields, callable and constant mean / trend
+    vec2 = lambda *c: np.array([0.1 * c[0] + 0.7 * k - 0.05 * c[-1] for k in range(len(c))])   # noqa: E731
+    unb = [("Normalizer", 1.0, 0.0), ("Manly", 0.3, 0.0), ("YeoJohnson", 1.5, 0.0), ("Modulus", 0.5, 0.0)]
+    for dim in (2, 3):
+        for npt in (1, 2, dim, dim + 1):
+            nm = unb[int(rng.integers(len(unb)))]
+            mt = [(vec2, vec), (vec, tuple(1.0 + j for j in range(dim))), (tuple(0.2 - 0.3 * j for j in range(dim)), vec2)][int(rng.integers(3))]
+            cases.append(dict(obj="SRF", norm=nm, dim=dim, mesh="unstructured", npt=npt, mean=mt[0], trend=mt[1], value_type="vector",
+                              seed=int(rng.integers(1, 10 ** 6))))
+            nm = norms[int(rng.integers(len(norms)))]
+            cases.append(dict(obj=["SRF", "Krige", "Field"][int(rng.integers(3))], norm=nm, dim=dim, mesh="unstructured", npt=npt,
+                              mean=[0.4, lin][int(rng.integers(2))], trend=[quad, lin][int(rng.integers(2))], value_type="scalar",
+                              seed=int(rng.integers(1, 10 ** 6))))
+        for axes in ([dim] * dim, [1] + [dim] * (dim - 1), [dim] + [1] * (dim - 1), [dim + 1] + [dim] * (dim - 1)):
+            nm = unb[int(rng.integers(len(unb)))]
+            cases.append(dict(obj="SRF", norm=nm, dim=dim, mesh="structured", axes=axes, mean=vec2, trend=vec, value_type="vector",
+                              seed=int(rng.integers(1, 10 ** 6))))
+            nm = norms[int(rng.integers(len(norms)))]
+            cases.append(dict(obj=["SRF", "Krige", "Field"][int(rng.integers(3))], norm=nm, dim=dim, mesh="structured", axes=axes,
+                              mean=lin, trend=quad, value_type="scalar", seed=int(rng.integers(1, 10 ** 6))))
     return cases
 
 
@@ -967,9 +1054,10 @@ def pipeline(ctx, drv, rng):
         nz = make(name, lam, sh)
         model = gs.Gaussian(dim=dim, var=0.15, len_scale=1.5)
         if mesh == "structured":
-            pos = [np.linspace(0, 3, int(rng.integers(2, 5))) for _ in range(dim)]
+            axes = cs.get("axes") or [int(rng.integers(2, 5)) for _ in range(dim)]
+            pos = [np.linspace(0.1 * j, 3, int(a)) if a > 1 else np.array([1.3 + 0.2 * j]) for j, a in enumerate(axes)]
         else:
-            npt = int(rng.integers(3, 12))
+            npt = cs.get("npt") or int(rng.integers(3, 12))
             pos = [rng.uniform(0, 3, npt) for _ in range(dim)]
         pts = points_of(pos, mesh, dim)
         desc = dict(kind="pipeline", obj=cs["obj"], normalizer=name, lmbda=C.fhex(lam), shift=C.fhex(sh), dim=dim, mesh=mesh,
@@ -1002,7 +1090,7 @@ def pipeline(ctx, drv, rng):
                     cond = np.asarray(kr._krige_cond, dtype=float)[:nc]
                     mcond = drv.call("remove_field", ("n", k), lam, sh, cmean, ctrend, cval)
                     ctx.count(("pipeline", "krige_cond", name), hist=dict(pipeline="krige conditions"))
-                    if not agree(cond, mcond, np.abs(cond) + np.abs(cmean) + 1).all():
+                    if not agree(cond, mcond, cond_scale(name, lam, sh, cval, ctrend, cmean, cond)).all():
                         ctx.violation("correspondence: Krige conditions", "_krige_cond differs from normalize(cond_val - trend) - mean of the model",
                                       dict(desc, cond_val=hexl(cval), impl=hexl(cond), model=hexl(mcond)), key="corr:krige_cond",
                                       no_input=bool(np.allclose(cond, zc, rtol=1e-6, atol=1e-8)))
@@ -1340,7 +1428,7 @@ def run_history(holder, sp0, ops, drv=None):
                 name, lam, sh = sp["norm"]
                 cond = np.asarray(kr._krige_cond, dtype=float)[:len(sp["cond_val"])]
                 mc = drv.call("remove_field", ("n", KINDS[name]), lam, sh, cm, ct, np.array(sp["cond_val"], dtype=float))
-                if not agree(cond, mc, np.abs(cond) + np.abs(cm) + 1).all():
+                if not agree(cond, mc, cond_scale(name, lam, sh, np.array(sp["cond_val"], dtype=float), ct, cm, cond)).all():
                     return "after operation %d: _krige_cond = %r but normalize(cond_val - trend) - mean with the present parameters is %r" % (
                         i, cond.tolist(), np.asarray(mc).tolist()), nev
     return None, nev
@@ -1553,6 +1641,9 @@ def acc_input_classes(ctx, rng):
                     ("python int", 2, np.array(2.0)), ("0-d NaN", np.array(np.nan), np.array(np.nan)), ("numpy float32 scalar", np.float32(0.5), np.array(0.5)),
                     ("masked array without masked entries", np.ma.array(base[:6]), base[:6]),
                     ("non-contiguous view", np.stack([base, base])[:, ::2], np.stack([base, base])[:, ::2].copy()),
+                    ("Fortran-ordered 2-D array", np.asfortranarray(base.reshape(2, 4)), base.reshape(2, 4)),
+                    ("transposed view", base.reshape(2, 4).T, base.reshape(2, 4).T.copy()),
+                    ("(n, 1) column", base.reshape(-1, 1), base.reshape(-1, 1).copy()),
                     ("empty array", np.array([]), np.array([]))]
         for vname, v, ref_in in variants:
             ctx.count(("input-class", name, vname), hist=dict(accessor="input class", input_class=vname))
@@ -1620,6 +1711,8 @@ def acc_helpers(ctx, drv, rng):
                         mean, trend = fv_of(msp), fv_of(tsp)
                         nz = make(name, lam, sh)
                         fld = raw if stacked else raw[0]
+                        if fld.ndim >= 2 and rng.random() < 0.5:      # memory layout must not matter
+                            fld = np.asfortranarray(fld)
                         if not check_shape and mesh == "structured" and stacked:
                             pass
                         desc = dict(kind="helpers", normalizer=name, lmbda=C.fhex(lam), shift=C.fhex(sh), mesh=mesh, stacked=stacked,
@@ -1663,6 +1756,97 @@ def acc_helpers(ctx, drv, rng):
                         if msgs:
                             ctx.violation("probe: pipeline helpers vs the model", "%s, stacked=%s, check_shape=%s, %s(lmbda=%r): %s" % (mesh, stacked, check_shape, name, lam, "; ".join(msgs)),
                                           desc, key="helpers:%s" % ("stacked" if stacked else "single"))
+
+
+def acc_copies_interference(ctx, rng):
+    """an object's results are a function of ITS OWN parameters: other objects created / fitted / evaluated in between do not
+    change them, class-level defaults are never written, copy.deepcopy and pickle round trips behave like the original"""
+    import copy
+    import pickle
+    import gstools as gs
+    N = gn()
+    data = np.exp(rng.normal(0.2, 0.5, 40))
+    x = np.array([0.3, 1.0, 2.5, -0.4, np.nan, 7.0])
+
+    def outputs(nz):
+        with Quiet():
+            return [np.asarray(getattr(nz, fn)(x), dtype=float) for fn in ("normalize", "denormalize", "derivative")] + \
+                   [np.asarray(nz.loglikelihood(data), dtype=float)]
+    for cls in (N.BoxCox, N.BoxCoxShift, N.YeoJohnson, N.Modulus, N.Manly, N.LogNormal, N.Normalizer):
+        name = cls.__name__
+        defaults = dict(cls.default_parameter)
+        ranges0 = (cls.normalize_range, cls.denormalize_range) if not isinstance(cls.__dict__.get("normalize_range"), property) and \
+            not isinstance(cls.__dict__.get("denormalize_range"), property) else None
+        par = {k: (0.6 if k == "lmbda" else 0.4) for k in defaults}
+        a = cls(**par)
+        ref = outputs(a)
+        case = dict(kind="interference", normalizer=name, params=par)
+        ctx.count(("interference", name), hist=dict(accessor="interference / copies"))
+        with Quiet():
+            # other objects of the same and of other classes are created, fitted, changed, evaluated
+            b = cls()
+            if defaults:
+                b.fit(data, skip=["shift"] if "shift" in defaults else None)
+                b.lmbda = 5.0
+            outputs(b)
+            for other in (N.BoxCox, N.YeoJohnson, N.Manly):
+                o = other(data=data)
+                outputs(o)
+            kr = gs.krige.Ordinary(gs.Exponential(dim=1, len_scale=2.0), [np.linspace(0, 5, 6)], np.exp(rng.normal(0, 0.3, 6)), normalizer=cls, fit_normalizer=bool(defaults))
+            kr([np.linspace(0, 5, 4)])
+        msgs = []
+        if not all(C.bit_equal(u, v) for u, v in zip(outputs(a), ref)):
+            msgs.append("results changed after other normalizers / kriging objects were created, fitted and evaluated")
+        if dict(cls.default_parameter) != defaults or any(float(getattr(cls(), k)) != float(v) for k, v in defaults.items()):
+            msgs.append("class defaults changed: default_parameter %r (was %r), a new instance has %r" % (
+                cls.default_parameter, defaults, {k: getattr(cls(), k) for k in defaults}))
+        if ranges0 is not None and (cls.normalize_range, cls.denormalize_range) != ranges0:
+            msgs.append("class-level ranges changed")
+        if any(float(getattr(a, k)) != float(v) for k, v in par.items()):
+            msgs.append("parameters of the object changed: %r" % {k: getattr(a, k) for k in par})
+        # copies
+        for how, mk in (("copy.deepcopy", copy.deepcopy), ("pickle round trip", lambda o: pickle.loads(pickle.dumps(o)))):
+            try:
+                c = mk(a)
+            except Exception as e:
+                msgs.append("%s raised %r" % (how, e))
+                continue
+            if not all(C.bit_equal(u, v) for u, v in zip(outputs(c), ref)) or not (c == a) or type(c) is not type(a):
+                msgs.append("%s of the normalizer behaves differently from the original" % how)
+            if defaults:
+                c.lmbda = -2.0
+                if not all(C.bit_equal(u, v) for u, v in zip(outputs(a), ref)):
+                    msgs.append("changing the %s changed the original" % how)
+        if msgs:
+            ctx.violation("probe: results depend only on the object's own parameters", "%s: %s" % (name, "; ".join(msgs)), case, key="interference:normalizer")
+    # holders: deepcopy evaluates like the original; an unrelated object in between does not matter
+    for holder in ("SRF", "Krige", "CondSRF", "Field"):
+        sp, ops = gen_history(rng, holder, "quick")
+        ev = dict(ops[0], post_process=True, stored=False)
+        ctx.count(("interference", holder), hist=dict(accessor="interference / copies"))
+        with Quiet():
+            try:
+                ref = h_eval(holder, h_build(holder, sp), sp, ev, False)
+                obj = h_build(holder, sp)
+                sp2, ops2 = gen_history(rng, "Krige", "quick")
+                other = h_build("Krige", sp2)
+                other.set_condition(fit_normalizer=hasattr(other.normalizer, "lmbda") and sp2["norm"][0] != "BoxCoxShift")
+                h_eval("Krige", other, sp2, dict(ops2[0], stored=False), False)
+                got = h_eval(holder, obj, sp, ev, False)
+                cp = copy.deepcopy(h_build(holder, sp))
+                got_c = h_eval(holder, cp, sp, ev, False)
+                if hasattr(cp.normalizer, "lmbda"):
+                    cp.normalizer.lmbda = float(cp.normalizer.lmbda) + 0.7
+                got_after = h_eval(holder, obj, sp, ev, False)
+            except Exception as e:
+                ctx.violation("probe: results depend only on the object's own parameters", "%s: raised %r" % (holder, e),
+                              dict(kind="interference", holder=holder, params=sp, ev=ev), key="interference:raise")
+                continue
+        bad = [w for w, g in (("after an unrelated Krige object was fitted and evaluated", got), ("for a copy.deepcopy of the object", got_c),
+                              ("after the normalizer of a deep copy was changed", got_after)) if not same_out(g, ref)]
+        if bad:
+            ctx.violation("probe: results depend only on the object's own parameters", "%s: evaluation differs from a fresh object %s" % (holder, "; ".join(bad)),
+                          dict(kind="interference", holder=holder, params=sp, ev=ev), key="interference:%s" % holder)
 
 
 # ------------------------------------------------------------------------------------------- run / replay
@@ -1778,7 +1962,9 @@ def run(ctx, only=None):
         probes_scalar(ctx, rng, sub)
         probes_likelihood(ctx, rng)
         probes_fit_skip(ctx, rng)
+        probe_fit_scale(ctx, rng)
         acc_input_classes(ctx, rng)
+        acc_copies_interference(ctx, rng)
     finally:
         if drv:
             drv.close()
